@@ -16,10 +16,10 @@ OUT=$(mktemp /tmp/seedtest.XXXXXX)
 timeout 3000 ./check "$ID" "$TIER" > "$OUT" 2>&1
 rc=$?
 git -C /repo checkout -- . ; git -C /repo clean -fdq
-if grep -q "^VIOLATION property=$ID" "$OUT"; then
-  echo "DETECTED rc=$rc $(grep -m1 'signature:' "$OUT")"
+if grep -aq "^VIOLATION property=$ID" "$OUT"; then
+  echo "DETECTED rc=$rc $(grep -a -m1 "signature:" "$OUT")"
 else
   echo "MISSED rc=$rc"; tail -3 "$OUT"
 fi
-grep -c "^VIOLATION" "$OUT" | sed 's/^/  violation lines: /'
+grep -ac "^VIOLATION" "$OUT" | sed 's/^/  violation lines: /'
 rm -f "$OUT"
